@@ -38,6 +38,17 @@ def _lib_version():
     return tuple(nf.HDF_FF_VERSION)
 
 
+# header ids: (kind, is it a valid id?) - the text for each kind comes from _id_text
+ID_KINDS = ["valid", "invalid", "missing", "upper", "trailing", "leading", "truncated", "empty"]
+ID_OK = ("valid", "upper")
+
+
+def _id_text(kind):
+    """None = no id attribute at all"""
+    return {"valid": VALID_ID, "invalid": "not-a-uuid", "missing": None, "upper": VALID_ID.upper(),
+            "trailing": VALID_ID + "-old", "leading": "x" + VALID_ID, "truncated": VALID_ID[:-1], "empty": ""}[kind]
+
+
 def _prepare(version, fmt, idkind, with_content=True, with_groups=True):
     """an existing file with the given header, written straight into the store"""
     st = fakeh5.Store()
@@ -45,10 +56,8 @@ def _prepare(version, fmt, idkind, with_content=True, with_groups=True):
     root = st.root
     root.attrs["format"] = fmt
     root.attrs["version"] = list(version)
-    if idkind == "valid":
-        root.attrs["id"] = VALID_ID
-    elif idkind == "invalid":
-        root.attrs["id"] = "not-a-uuid"
+    if _id_text(idkind) is not None:
+        root.attrs["id"] = _id_text(idkind)
     root.attrs["created_at"] = b"20200101T000000"
     root.attrs["updated_at"] = b"20200101T000000"
     data = fakeh5.GNode()
@@ -73,7 +82,7 @@ def _ob_open(vx: int, vy: int, vz: int, vlen: int, fmt: int, idk: int, groups: b
     """
     pre: 0 <= vlen < 3
     pre: 0 <= fmt < 2
-    pre: 0 <= idk < 3
+    pre: 0 <= idk < 8
     post: __return__
     """
     import nixio
@@ -84,11 +93,11 @@ def _ob_open(vx: int, vy: int, vz: int, vlen: int, fmt: int, idk: int, groups: b
     n = _pick([3, 2, 4], vlen)
     version = [vx, vy, vz, 7][:n]
     tag = _pick(["nix", "xin"], fmt)
-    idkind = _pick(["valid", "invalid", "missing"], idk)
+    idkind = _pick(ID_KINDS, idk)
     if exists:
         if mode == "r" and not groups:
             # outside: read-only open of an acceptable file without /data and /metadata
-            id_ok0 = idkind == "valid"
+            id_ok0 = idkind in ID_OK
             assume(not (n == 3 and tag == "nix" and vx == X and vy <= Y and
                         (id_ok0 or not (vx, vy, vz) >= (1, 2, 0))))
         # an existing file need not have been written by nixio: it may lack /data and /metadata
@@ -119,7 +128,7 @@ def _ob_open(vx: int, vy: int, vz: int, vlen: int, fmt: int, idk: int, groups: b
         return len(f.blocks) == 0 and len(f.sections) == 0 and f.mode == "w"
 
     # existing file, mode 'a' or 'r'
-    id_ok = idkind == "valid"
+    id_ok = idkind in ID_OK
     if n != 3:
         accept = False
     elif mode == "a":
@@ -450,10 +459,8 @@ def _real_header_case(version, fmt, idkind, mode):
         with h5py.File(p, "a") as h:
             h.attrs["format"] = fmt
             h.attrs["version"] = np.array(version, dtype=np.int64)
-            if idkind == "valid":
-                h.attrs["id"] = VALID_ID
-            elif idkind == "invalid":
-                h.attrs["id"] = "not-a-uuid"
+            if _id_text(idkind) is not None:
+                h.attrs["id"] = _id_text(idkind)
             elif "id" in h.attrs:
                 del h.attrs["id"]
         raw_before = open(p, "rb").read()
@@ -480,9 +487,9 @@ def _replay_open(args):
     if any(abs(v) > 2 ** 40 for v in version):
         return None, {"skipped": "version too large for int64 replay"}
     tag = ["nix", "xin"][args["fmt"]]
-    idkind = ["valid", "invalid", "missing"][args["idk"]]
+    idkind = ID_KINDS[args["idk"]]
     opened, names, same = _real_header_case(version, tag, idkind, mode)
-    id_ok = idkind == "valid"
+    id_ok = idkind in ID_OK
     if mode == "w":
         return (not opened) or names != [], {"opened": opened, "blocks": names}
     if n != 3:
